@@ -363,9 +363,13 @@ func longformReplay(args []string) {
 			upd := pool.Get("ed", fmt.Sprintf("lf-upd-%d", c.Keys))
 			rec := pool.Get("ed", fmt.Sprintf("lf-rec-%d", c.Keys))
 			wantMD := map[string]interface{}{"equivalent_id_has_short_form": true, "updateCommitment": refCommitment(jwkMap(upd.JWK), sha2_256),
-				"recoveryCommitment": refCommitment(jwkMap(rec.JWK), sha2_256), "published": false}
+				"recoveryCommitment": refCommitment(jwkMap(rec.JWK), sha2_256)}
 			gotMD := map[string]interface{}{"equivalent_id_has_short_form": foundShort, "updateCommitment": md.Method.UpdateCommitment,
-				"recoveryCommitment": md.Method.RecoveryCommitment, "published": md.Method.Published}
+				"recoveryCommitment": md.Method.RecoveryCommitment}
+
+			if md.Method.Published {
+				col.beyond("metadata-published", "a DID resolved from its initial state alone is reported as published", c, false, true)
+			}
 
 			if digestJSON(wantMD) != digestJSON(gotMD) {
 				fail("metadata", "", wantMD, gotMD)
@@ -413,9 +417,10 @@ func longformReplay(args []string) {
 			uo := ROp{Type: "update", Wf: "ok", Reveal: "ok", Sig: "ok", Dhash: true, Dv: "ok", Sfx: true, Delta: Delta{"addkey", 1}, Nu: 1, Nr: 2, Kt: "p256", H: 256, Nuv: "norm"}
 			ureq, _ := newConcretizer(seed).buildRequest(&uo, 0)
 
+			// (C17 speaks of create requests only; that other types are answered with an error is pinned, not stated;
+			// the panic this call once caused is C19's business)
 			if r, e := handler.ProcessOperation(ureq); e == nil {
-				fail("process-operation", "an update request was processed", "error", r)
-				return
+				col.beyond("process-operation", "an update request was processed by the long-form handler", c, "error", r)
 			}
 
 			// every single-character change of the DID is rejected
